@@ -1,19 +1,126 @@
 /-
   Props.C17 — Bucket deletes remove exactly the matching data and reconcile metadata.
-  Model: Influx.Model.StoreDel (store content), Influx.Model.Epoch (epoch tracker / guards),
-  Influx.Model.DelPred (the compiled predicate, C16).  Statement: Influx.Spec.C17.
+  Model: Influx.Model.StoreDel (shards: series ↦ TSM file entries with tombstones + cache
+  entry; Store.DeleteSeriesWithPredicate with the handler's measurement short-cut; index
+  reconciliation), Influx.Model.DelPred (compiled predicate, C16), Influx.Model.Epoch
+  (epoch tracker, guards).  Statement: Influx.Spec.C17.
 -/
 import Influx.Lemmas.StoreDelC17
+import Influx.Lemmas.EpochInv
 
 namespace Influx.Props.C17
 open Influx.Model.StoreDel Influx.Model.DelPred
+open Influx.Spec.C16 (evalPred PredWF SeriesWF)
 
-/-- **Listed ⇔ has data** (clause 2, model level): every series the model lists has at least
-    one point, after any sequence of writes and deletes. -/
-theorem C17_listed_has_data (st : State) (h : NonEmptyPts st) :
-    (∀ sh name tags pts, pts ≠ [] → NonEmptyPts (write st sh name tags pts)) ∧
-    (∀ lo hi pred hm, NonEmptyPts (delete st lo hi pred hm)) :=
-  ⟨fun sh name tags pts hp => nonEmpty_write st h sh name tags pts hp,
-   fun lo hi pred hm => nonEmpty_delete st h lo hi pred hm⟩
+/-- **Clause 1 (one shard; `abs' = abs minus {(k,t) | selected k ∧ lo ≤ t ≤ hi}`).**  Whatever
+    is in TSM files (under tombstones, dropped keys) or in the cache: after the delete every
+    series reads as before minus the points in `[lo, hi]` if it was handed to the engine, and
+    exactly as before otherwise. -/
+theorem C17_points_exact (sh : Shard) (hwf : ShardWF sh) (lo hi : Int) (hlh : lo ≤ hi) (pred : Option Pred)
+    (mname : Option Bytes) (name : Bytes) (tags : Tags) :
+    readPts (sh.delete lo hi pred mname) name tags =
+      if selOf sh pred mname name tags then cutPts lo hi (readPts sh name tags) else readPts sh name tags :=
+  readPts_delete sh hwf lo hi hlh pred mname name tags
+
+/-- **Clause 1 with the predicate (partial: inside the C16 domain `KeyOK`).**  For a series of the
+    shard in the domain, "handed to the engine" means exactly "the predicate is true of it" —
+    with or without the measurement short-cut the HTTP handler enables. -/
+theorem C17_selects_exactly_partial (sh : Shard) (p : Pred) (handlerMode : Bool) (s : Series) (hs : s ∈ sh.series)
+    (hp : PredWF p = true) (hsw : SeriesWF s.name s.tags = true) (hk : KeyOK s.name s.tags = true) :
+    selOf sh (some p) (if handlerMode then measNameOf p else none) s.name s.tags = evalPred s.name s.tags p := by
+  have hsel := predSelects_eq p s.name s.tags hp hsw hk
+  cases handlerMode with
+  | true => exact selOf_handler sh p s hs hsel
+  | false =>
+    have : (visited sh none).contains s.name = true := by simpa [visited] using mem_measurements hs
+    simp only [Bool.false_eq_true, if_false, selOf, this, Bool.true_and]
+    exact hsel
+
+/-- the shard invariant (well-formed file entries, ascending cache entries, every series listed,
+    one entry per series) is kept by writes, snapshots and deletes -/
+theorem C17_invariant (sh : Shard) (hwf : ShardWF sh) :
+    (∀ name tags pts, pts ≠ [] → ShardWF (sh.write name tags pts)) ∧ ShardWF sh.snapshot ∧
+    (∀ lo hi pred mname, lo ≤ hi → ShardWF (sh.delete lo hi pred mname)) :=
+  ⟨fun name tags pts hp => shardWF_write sh hwf name tags pts hp, shardWF_snapshot sh hwf,
+   fun lo hi pred mname hlh => shardWF_delete sh hwf lo hi hlh pred mname⟩
+
+/-- **Clause 2, data ⇒ listed** (always): a series that still reads a point is listed. -/
+theorem C17_data_listed (sh : Shard) (name : Bytes) (tags : Tags) (h : readPts sh name tags ≠ []) :
+    isListed sh name tags = true :=
+  listed_of_readPts sh name tags h
+
+/-- **Clause 2, listed ⇒ data (partial: values still in the cache).**  A listed series whose
+    values never went to a TSM file has a point. -/
+theorem C17_listed_data_partial (s : Series) (hwf : s.WF) (hc : CacheOnly s) :
+    s.listed = true ↔ s.pts ≠ [] :=
+  listed_iff_pts_cacheOnly s hwf hc
+
+/-- after a delete the series that left the index are exactly those … that the engine emptied: a
+    selected series stays iff a TSM file still has its key or its cache entry has a value -/
+theorem C17_series_leaves (sel : Bool) (lo hi : Int) (hlh : lo ≤ hi) (s : Series) (hwf : s.WF)
+    (hl : s.listed = true) :
+    match delSeries sel lo hi s with
+    | some s' => s'.name = s.name ∧ s'.tags = s.tags ∧ s'.WF ∧ s'.listed = true ∧
+        s'.pts = (if sel then cutPts lo hi s.pts else s.pts)
+    | none => sel = true ∧ cutPts lo hi s.pts = [] :=
+  delSeries_exact sel lo hi hlh s hwf hl
+
+/-- **The full clause 2 is false of the code**: three values -1, 1, 15 in one TSM file, range
+    deletes [15,21] and then [-1,6]: no value is left, the tombstones do not line up
+    (`indirectIndex.DeleteRange` only drops a key when they do), the key stays in the file and the
+    series stays in the index. -/
+theorem C17_full_fails :
+    ∃ s : Series, s.WF ∧
+      ((delSeries true 15 21 s).bind fun s1 =>
+        (delSeries true (-1) 6 s1).map fun s2 => (s2.listed, s2.pts)) = some (true, []) := by
+  refine ⟨⟨[109, 49], [], [⟨[(-1, 23), (1, 57), (15, 7)], [], false⟩], []⟩, ?_, by decide⟩
+  refine ⟨?_, by simp [Asc]⟩
+  intro f hf
+  simp only [List.mem_singleton] at hf
+  subst hf
+  exact ⟨by simp [Asc], by simp⟩
+
+/-! ### clause 3: the epoch tracker -/
+
+open Influx.Model.Epoch in
+/-- a delete's `pending` (its `Wait` returns iff it is 0) is, at every moment, the number of writes
+    that entered before it and have not left — for every schedule of the tracker -/
+theorem C17_epoch_pending (ops : List EOp) :
+    ∀ t, Influx.Model.Epoch.Inv t → ∀ d ∈ (ops.foldl (fun t op => (step t op).1) t).deletes,
+      d.pending = ((ops.foldl (fun t op => (step t op).1) t).inflight.filter fun w => w.gen < d.gen).length := by
+  induction ops with
+  | nil => intro t h d hd; exact h.pending d hd
+  | cons op ops ih => intro t h; exact ih _ (inv_step t h op)
+
+open Influx.Model.Epoch in
+/-- **Writes that do not conflict with a running delete are never blocked by it**: an entering
+    write waits for exactly the registered deletes whose guard matches one of its points. -/
+theorem C17_epoch_nonblocking (t : Tracker) (id : Int) (times : List Int) (g : Nat) (wait : List Int)
+    (h : (step t (.startWrite id times)).2 = .started g wait) (x : Int) :
+    x ∈ wait ↔ ∃ d ∈ t.deletes, d.id = x ∧ guardMatches d times = true := by
+  simp only [step] at h
+  split at h
+  · cases h
+  · simp only [EAns.started.injEq] at h
+    rw [← h.2, mem_sortAsc, List.mem_map]
+    constructor
+    · rintro ⟨d, hd, rfl⟩
+      exact ⟨d, (List.mem_filter.1 hd).1, rfl, (List.mem_filter.1 hd).2⟩
+    · rintro ⟨d, hd, rfl, hm⟩
+      exact ⟨d, List.mem_filter.2 ⟨hd, hm⟩, rfl⟩
+
+open Influx.Model.Epoch in
+/-- a delete installed while `n` writes are in flight waits for exactly those -/
+theorem C17_epoch_delete_waits (t : Tracker) (h : Influx.Model.Epoch.Inv t) (id lo hi : Int) (g : Nat) (p : Int)
+    (hs : (step t (.waitDelete id lo hi)).2 = .installed g p) : p = t.inflight.length := by
+  simp only [step] at hs
+  split at hs
+  · cases hs
+  · simp only [EAns.installed.injEq] at hs
+    rw [← hs.2, h.writes]
+
+-- non-vacuity
+example : ShardWF ⟨1, [], []⟩ := ⟨by simp, by simp⟩
+example : Influx.Model.Epoch.Inv {} := Influx.Model.Epoch.inv_init
 
 end Influx.Props.C17
